@@ -108,6 +108,19 @@ CHECKS = {
         note=TB + " Partial: process behaviour (fork/exec, waitpid, SIGTERM escalation, pipe buffering and timing) is a parameter or observed, not modelled; a peer that stays alive and silent blocks the VM (outside the property's fault list).",
         technique="Lean 4 proof (decision logic + induction over calls) + scripted-peer fault enumeration against the real binary",
         design="6/C16"),
+    "C19": dict(
+        category="proof",
+        text=("What a proof can say here is limited and stated as such: the Lean models of string-pool construction and serialisation are pure "
+              "functions, and the lemmas carry the mechanisms the anchors name - the pool is duplicate-free whatever was inserted "
+              "(pool_nodup), contains exactly the inserted strings (pool_mem), indices never move (index_stable, index_correct), and the "
+              "serialised size is a function of the section sizes (serialize_length). That the C programs are functions of their input is "
+              "decided per run by a configuration sweep: every program (generated, corpus, multi-module repo tests, an ill-typed one) is "
+              "compiled under 10 configurations (cwd, relative/absolute path, TMPDIR, environment noise, ASLR off, MALLOC_PERTURB_, "
+              "repetition, pid shift) with both nano_virt --emit-nvm and nanoc --keep-c; artifacts and path-normalised diagnostics must be "
+              "byte-identical."),
+        note=TB + " Partial: absence of uninitialised reads / pointer-keyed iteration in 12k lines of C is not a theorem; the sweep is search. The generated C has no Lean model.",
+        technique="Lean 4 lemmas on pool/serialiser determinism + configuration sweep (search, not proof)",
+        design="6/C19"),
 }
 
 NOT_APPLICABLE = {
